@@ -11,6 +11,8 @@ import (
 	"sort"
 	"strconv"
 	"strings"
+	"sync"
+	"sync/atomic"
 	"time"
 
 	"github.com/dgraph-io/badger"
@@ -87,6 +89,9 @@ type c20Env struct {
 	model resbadger.Model
 	// mapped: the model option has a Map callback adding the member zzmapped to what get serves
 	mapped bool
+	// parallel: the handler is registered with Parallel(true) (listener calls are then counted under lmu)
+	parallel bool
+	lmu      sync.Mutex
 }
 
 func (e *c20Env) open() error {
@@ -200,8 +205,16 @@ func (e *c20Env) open() error {
 			}
 			opt = m
 		}
-		s.Handle("r.$id", opt)
-		s.AddListener("r.$id", func(ev *res.Event) { e.lev = append(e.lev, ev) })
+		if e.parallel {
+			s.Handle("r.$id", opt, res.Parallel(true))
+		} else {
+			s.Handle("r.$id", opt)
+		}
+		s.AddListener("r.$id", func(ev *res.Event) {
+			e.lmu.Lock()
+			e.lev = append(e.lev, ev)
+			e.lmu.Unlock()
+		})
 	})
 	e.rig.C.NoGoID = true
 	return e.rig.start()
@@ -573,7 +586,103 @@ func c20Run(c *core.Ctx, b core.Batch) {
 		if !ok {
 			return
 		}
+		if p.Cfg.Type == "collection" && !p.Cfg.Default && seq%5 == 0 {
+			dir, err := os.MkdirTemp("", "rvmon-c20-")
+			if err != nil {
+				c.Inconclusive(err.Error())
+				return
+			}
+			ok := c20ParallelRemoves(c, p.Cfg, dir, seq)
+			os.RemoveAll(dir)
+			if !ok {
+				return
+			}
+		}
 	}
+}
+
+// c20ParallelRemoves: a collection registered with Parallel(true) gets remove events from
+// sixteen callbacks at once. Some are applied, the others refused (the middleware's
+// transaction meets a conflict): what get serves afterwards is the initial collection
+// minus one item per applied event, and exactly the applied ones were published.
+func c20ParallelRemoves(c *core.Ctx, cfg c20Cfg, dir string, seq int) bool {
+	e := &c20Env{c: c, cfg: cfg, dir: dir, seq: seq, parallel: true}
+	if err := e.open(); err != nil {
+		c.Inconclusive("open: " + err.Error())
+		return false
+	}
+	defer e.closeAll()
+	const rid, items, rounds, par = "svc.r.par", 60, 3, 16
+	var init []interface{}
+	for k := 0; k < items; k++ {
+		init = append(init, fmt.Sprintf("i%02d", k))
+	}
+	created := make(chan interface{}, 1)
+	if err := e.rig.S.With(rid, func(rs res.Resource) { created <- try(func() { rs.CreateEvent(init) }) }); err != nil {
+		c.Inconclusive("With: " + err.Error())
+		return false
+	}
+	select {
+	case pn := <-created:
+		if pn != nil {
+			c.Inconclusive(fmt.Sprintf("parallel removes: create failed: %v", pn))
+			return false
+		}
+	case <-time.After(10 * time.Second):
+		c.Inconclusive("parallel removes: create not processed")
+		return false
+	}
+	pos := e.rig.C.Len()
+	var applied int64
+	for round := 0; round < rounds; round++ {
+		var wg sync.WaitGroup
+		start := make(chan struct{})
+		for g := 0; g < par; g++ {
+			wg.Add(1)
+			err := e.rig.S.With(rid, func(rs res.Resource) {
+				defer wg.Done()
+				<-start
+				if try(func() { rs.RemoveEvent(0) }) == nil {
+					atomic.AddInt64(&applied, 1)
+				}
+			})
+			if err != nil {
+				wg.Done()
+			}
+		}
+		close(start)
+		done := make(chan struct{})
+		go func() { wg.Wait(); close(done) }()
+		if !waitCh(done, 20*time.Second) {
+			c.Inconclusive("parallel removes: callbacks did not finish")
+			return false
+		}
+	}
+	c.Eval(rounds * par)
+	c.Obs("parallel_remove_events", rounds*par)
+	c.Obs("parallel_remove_events_applied", atomic.LoadInt64(&applied))
+	published := 0
+	for _, m := range e.rig.C.Since(pos) {
+		if m.Subject == "event."+rid+".remove" {
+			published++
+		}
+	}
+	got, ok := e.served(rid)
+	if !ok {
+		return false
+	}
+	var l []interface{}
+	json.Unmarshal([]byte(got), &l)
+	sig := fmt.Sprintf("%s/%s", cfg.Pkg, cfg.Type)
+	desc := map[string]interface{}{"config": cfg, "handler": "Parallel(true)", "initial_items": items, "remove_events_sent": rounds * par, "applied_without_error": applied, "published": published, "items_served_afterwards": len(l)}
+	c.Distinct(fmt.Sprintf("parallel-removes/%s/%d", sig, seq))
+	if int64(published) != applied {
+		c.Violation("C20/parallel-removes:published:"+sig, fmt.Sprintf("%d remove events were applied without error, %d were published", applied, published), desc)
+	}
+	if int64(len(l)) != items-applied {
+		c.Violation("C20/parallel-removes:get-not-fold:"+sig, fmt.Sprintf("%d items, %d remove events applied without error: get serves %d items, the fold has %d", items, applied, len(l), items-applied), desc)
+	}
+	return true
 }
 
 func c20Sequence(c *core.Ctx, cfg c20Cfg, dir string, r *rand.Rand, seq int) bool {
